@@ -9,7 +9,7 @@ from .. import runner
 from ..framework import case_hash
 
 LEVEL = "exploration"
-RULE = ("points (sample_count, sample_rate) with count in [0,2^62], rate a finite double in [0,2^31]; "
+RULE = ("points (sample_count, sample_rate) with count in [0,2^62], rate any double (mostly in [0,2^31], plus negative, NaN, infinite and huge rates); "
         "generated from a boundary lattice (counts k*q-1,k*q,k*q+1 and powers of two; rates 210*m-eps,210*m,210*m+eps "
         "and the usual audio rates) plus log-uniform random points; a point is non-trivial when its quantisation "
         "number q>0 and count>0 (so both extents are non-empty); distinct by (count, rate bits)")
@@ -24,8 +24,12 @@ def undbits(h):
 
 
 def quant(rate):
-    # the quantisation number, recomputed from the definition
-    return (int(rate) // 210) * 2
+    # the quantisation number, recomputed from the definition; a rate that is negative, NaN or below 210 is
+    # too low to quantise, and a rate beyond the 64-bit range counts as the largest representable one
+    if rate != rate or rate <= 0:
+        return 0
+    r = 2 ** 63 - 1 if rate >= 2.0 ** 63 else int(rate)
+    return (r // 210) * 2
 
 
 def expect(count, rate):
@@ -38,6 +42,8 @@ def expect(count, rate):
     return (hsize, float(q), 1024, ospe, q)
 
 
+RATES_ODD = [-0.0, -1.0, -209.0, -210.0, -420.5, -44100.0, -1e300, float("-inf"), float("nan"), float("inf"), 1e300, 2.0 ** 63,
+             2.0 ** 62, 9.3e18, 2.0 ** 31 + 1, 2.0 ** 40]
 RATES_FIXED = [0.0, 0.5, 1.0, 104.9, 209.0, 209.99, 210.0, 210.01, 419.0, 419.99, 420.0, 421.0, 629.9, 630.0,
                8000.0, 11025.0, 22050.0, 32000.0, 44099.999, 44100.0, 44100.5, 48000.0, 88200.0, 96000.0,
                176400.0, 192000.0, 384000.0, 1e6, 2.0 ** 31 - 1, 2.0 ** 31, 2.0 ** 31 - 0.5, 5e-324, 1e-300]
@@ -45,7 +51,7 @@ RATES_FIXED = [0.0, 0.5, 1.0, 104.9, 209.0, 209.99, 210.0, 210.01, 419.0, 419.99
 
 def gen_points(rng, n):
     pts = []
-    rates = list(RATES_FIXED)
+    rates = list(RATES_FIXED) + list(RATES_ODD)
     for _ in range(40):
         m = rng.choice([1, 2, 3, 5, 10, 100, 210, 1000, rng.randrange(1, 10000000)])
         base = 210.0 * m
@@ -54,6 +60,8 @@ def gen_points(rng, n):
                 r = base + eps
                 if 0 <= r <= 2.0 ** 31:
                     rates.append(r)
+                    if eps == 0.0:
+                        rates.append(-r)
     # boundary lattice
     for r in rates:
         q = quant(r)
@@ -184,7 +192,7 @@ def run(ctx):
     for p in pts[:3] + pts[len(pts) // 2: len(pts) // 2 + 2]:
         ctx.sample({"count": p[0], "rate": p[1], "expected": dict(zip(("hi_size", "hi_spe", "ov_size", "ov_spe", "q"), expect(*p)))})
     ctx.assumptions += ["Python int arithmetic and int/int true division (correctly rounded) are the exact reference",
-                        "domain restricted to the statement's: rates 0..2^31, counts 0..2^62"]
+                        "every double is a sample rate (negative, NaN and infinite ones included); counts 0..2^62"]
     _run_points(ctx, pts)
 
 
